@@ -16,8 +16,8 @@ COMPOUND_OPS = {"+=": "add", "-=": "sub", "*=": "mul", "/=": "div", "%=": "mod",
                 "^=": "bitwise_xor", "<<=": "bitwise_lshift", ">>=": "bitwise_rshift"}
 
 
-METHOD_OPS = {"load_aligned", "load_unaligned", "store_aligned", "store_unaligned", "get", "real", "imag", "gather", "scatter"}
-STATIC_METHODS = {"load_aligned", "load_unaligned", "gather"}
+METHOD_OPS = {"load_aligned", "load_unaligned", "store_aligned", "store_unaligned", "get", "real", "imag", "gather", "scatter", "from_mask"}
+STATIC_METHODS = {"load_aligned", "load_unaligned", "gather", "from_mask"}
 
 
 class Unsupported(Exception):
